@@ -75,12 +75,26 @@ func c24HashOf(id int) c24Hash {
 			h[i] = 0xFF
 		}
 	default:
+		// memoised (pure function of id): full mode needs 341*80 of these per case
+		if id < len(c24HashMemo) && c24HashMemoOK[id] {
+			return c24HashMemo[id]
+		}
 		var b [8]byte
 		binary.LittleEndian.PutUint64(b[:], uint64(id))
 		h = sha256.Sum256(b[:])
+		if id < len(c24HashMemo) {
+			c24HashMemo[id], c24HashMemoOK[id] = h, true
+		}
 	}
 	return h
 }
+
+var (
+	c24ScratchRef  []c24Hash
+	c24ScratchImpl []types.AuthorizerHash
+	c24HashMemo   = make([]c24Hash, 1000+341*c24Q)
+	c24HashMemoOK = make([]bool, 1000+341*c24Q)
+)
 
 // c24QueueID: the queue content is derived from three drawn parameters so that the
 // replay file stays small in full mode (341*80 entries). Entries are either a
@@ -256,11 +270,18 @@ func c24Run(c *kit.Case, in c24Input, apply c24Apply) {
 			qids[o[0]][o[1]] = o[2]
 		}
 	}
+	// the two queue tables (reference copy and the value handed to the code) live in
+	// scratch buffers reused from case to case: 2 x 873 KB per full-mode case
+	// otherwise dominate the run time (page clearing / madvise)
+	if len(c24ScratchRef) < C*c24Q {
+		c24ScratchRef = make([]c24Hash, C*c24Q)
+		c24ScratchImpl = make([]types.AuthorizerHash, C*c24Q)
+	}
 	refQ := make([][]c24Hash, C)
 	varphi := make(types.AuthQueues, C)
 	for cc := 0; cc < C; cc++ {
-		refQ[cc] = make([]c24Hash, c24Q)
-		varphi[cc] = make(types.AuthQueue, c24Q)
+		refQ[cc] = c24ScratchRef[cc*c24Q : (cc+1)*c24Q : (cc+1)*c24Q]
+		varphi[cc] = types.AuthQueue(c24ScratchImpl[cc*c24Q : (cc+1)*c24Q : (cc+1)*c24Q])
 		for i := 0; i < c24Q; i++ {
 			refQ[cc][i] = c24HashOf(qids[cc][i])
 			varphi[cc][i] = types.AuthorizerHash(refQ[cc][i])
